@@ -95,6 +95,17 @@ impl SigningError {
     }
 }
 
+#[cfg(feature = "enr_verif")]
+impl SigningError {
+    /// Verification hook: lets a key implemented outside the crate report a signing failure.
+    pub fn verif_new(msg: &str) -> Self {
+        Self {
+            msg: msg.to_string(),
+            source: None,
+        }
+    }
+}
+
 impl fmt::Display for SigningError {
     fn fmt(&self, f: &mut fmt::Formatter) -> fmt::Result {
         write!(f, "Key signing error: {}", self.msg)
